@@ -30,6 +30,7 @@ RULE += (' Also: items that are None (grouped by equality or an is-None key).')
 RULE += (' Also: the key failing once with AttributeError / LookupError / RuntimeError.')
 RULE += (' Also: lenient keys equal to any foreign object.')
 RULE += (' Also: key comparisons that fail once; keys not equal to themselves (one shared NaN object / a fresh NaN per call).')
+RULE += (' Also: the consumer drops the groupby object and keeps group handles.')
 ASSUMPTIONS = ["itertools.groupby of the running interpreter is the reference", "keys with reflexive equality only"]
 EXHAUSTIVE_SUBSPACES = "all operation sequences starting with 'adv' of length <= 5 (thorough: 6) over {adv, g-1, g-2, g0} on 12 fixed inputs"
 EXHAUSTIVE = {"quick": False, "thorough": False}
@@ -59,6 +60,8 @@ def cases(tier, seed, shard, nshards):
             r = rng.random()
             ops.append("adv" if r < 0.35 else "g-1" if r < 0.72 else rng.choice(["g-2", "g0", "g-3"]) if r < 0.9
                        else rng.choice(["c-1", "c-1", "c-2", "c0"]))
+        if rng.random() < 0.15 and len(ops) > 2:
+            ops.insert(rng.randrange(1, len(ops)), "drop")
         case = {"keys": keys, "key": rng.choice([None, "half", "ahalf", "aident", "noneodd", "anoneodd", "tuple", "onesided", "aonesided", "lenient", "alenient", "samenan", "asamenan", "freshnan", "afreshnan"]), "ops": ops,
                 "flav": rng.choice(["list", "async_gen", "async_class", "sync_iter"]), "susp": rng.choice([0, 0, 1])}
         if rng.random() < 0.06:
@@ -210,6 +213,15 @@ def gb_side(case, sync, fault=None, fnfl=None, cont=False):
         for n, op in enumerate(case["ops"]):
             CTX.ev("op", n)
             try:
+                if op == "drop":
+                    # the consumer lets go of the groupby object itself and keeps only group handles: a live group goes
+                    # on yielding the rest of its run (groups keep what they need alive)
+                    gs = None
+                    results.append(("dropped",))
+                    continue
+                if op == "adv" and gs is None:
+                    results.append(("dropped",))
+                    continue
                 if op == "adv":
                     try:
                         k, g = next(gs)
@@ -249,6 +261,13 @@ def gb_side(case, sync, fault=None, fnfl=None, cont=False):
             for n, op in enumerate(case["ops"]):
                 CTX.ev("op", n)
                 try:
+                    if op == "drop":
+                        ga = None
+                        results.append(("dropped",))
+                        continue
+                    if op == "adv" and ga is None:
+                        results.append(("dropped",))
+                        continue
                     if op == "adv":
                         try:
                             k, g = await ga.__anext__()
@@ -306,7 +325,7 @@ def run_case(case, stats: Counter, compare_log=True):
     for op, r in zip(case["ops"], ref):
         if op == "adv" and r[0] == "key":
             ng += 1
-        elif op != "adv" and r[0] not in ("nogroup", "closed"):
+        elif op not in ("adv", "drop") and r[0] not in ("nogroup", "closed"):
             i = int(op[1:])
             if (i < 0 and -i != 1) or (i >= 0 and i != ng - 1):
                 stale = True
